@@ -1058,6 +1058,17 @@ def splice_helpers(prog: Program, paths: list[Path], _depth: int = 0, cls=None) 
     return splice_helpers(prog, out, _depth + 1, cls) if changed else out
 
 
+_scache: dict = {}
+
+
+def spaths(prog: Program, func: FuncInfo, cls=None) -> list[Path]:
+    """The paths of `func` with its private multi-statement helpers spliced in (see splice_helpers), memoised."""
+    key = (id(prog), func.qualname, func.bound.qualname if func.bound else None, cls.qualname if cls is not None else None)
+    if key not in _scache:
+        _scache[key] = splice_helpers(prog, paths_of(prog, func), cls=cls)
+    return _scache[key]
+
+
 def block_paths(prog: Program, func: FuncInfo, stmts: list, params: list[str], tag: str) -> list[Path]:
     """Paths of a block of `func`'s statements seen as a function of the given variables (a state transformer).
 
